@@ -88,21 +88,31 @@ def class_name(tag, T, ci):
 # worker (runs under a given PYTHONHASHSEED; imports cattrs from CATTRS_SRC)
 # =====================================================================================================
 
-def _worker_realise(T, tag):
-    import dataclasses
+def _field_type(f, classes):
     from typing import Literal
+
+    if f.get("ref") is not None:
+        return classes[f["ref"]]          # a field typed as another class of the tree (always an earlier class)
+    return Literal[tuple(f["lit"])] if f["lit"] is not None else int
+
+
+def _worker_realise(T, tag, classes=None, upto=None):
+    """realise classes len(classes)..upto-1 of the tree as REAL subclasses (appends to `classes`)"""
+    import dataclasses
 
     import attr
 
-    classes = []
+    classes = [] if classes is None else classes
+    upto = len(T["classes"]) if upto is None else upto
     kw = T["kw_only"]
-    for ci, node in enumerate(T["classes"]):
+    for ci in range(len(classes), upto):
+        node = T["classes"][ci]
         name = class_name(tag, T, ci)
         bases = (classes[node["parent"]],) if node["parent"] >= 0 else ()
         if T["kind"] == "attrs":
             attribs = {}
             for f in node["own"]:
-                ty = Literal[tuple(f["lit"])] if f["lit"] is not None else int
+                ty = _field_type(f, classes)
                 if f["dflt"] == "req":
                     attribs[f["name"]] = attr.ib(type=ty)
                 elif f["dflt"] == "const":
@@ -114,7 +124,7 @@ def _worker_realise(T, tag):
         else:
             fs = []
             for f in node["own"]:
-                ty = Literal[tuple(f["lit"])] if f["lit"] is not None else int
+                ty = _field_type(f, classes)
                 if f["dflt"] == "req":
                     fs.append((f["name"], ty))
                 elif f["dflt"] == "const":
@@ -130,6 +140,12 @@ def _worker_realise(T, tag):
     return classes
 
 
+def _worker_instance(spec, classes):
+    """{"cls": c, "args": {name: value | {"inst": <spec>}}} -> a real instance (nested for class-typed fields)"""
+    args = {n: (_worker_instance(v["inst"], classes) if isinstance(v, dict) else v) for n, v in spec["args"].items()}
+    return classes[spec["cls"]](**args)
+
+
 def _exc_detail(e):
     """class names only (plus the key names a ForbiddenExtraKeysError carries): what the finding predicates look at"""
     d = {"exc": type(e).__name__}
@@ -142,15 +158,19 @@ def _exc_detail(e):
     return d
 
 
-def _worker_config(T, cfg, classes, insts):
+def _worker_converter(cfg):
+    from cattrs import Converter
+
+    return Converter(forbid_extra_keys=cfg["forbid"], detailed_validation=cfg["detailed"], omit_if_default=cfg["omit"])
+
+
+def _worker_apply(cfg, classes, conv):
+    """include_subclasses(root, conv, ...) for the classes that exist NOW; returns the step record (no pairs yet)"""
     import functools
 
-    from cattrs import Converter
     from cattrs.gen import override
     from cattrs.strategies import configure_tagged_union, include_subclasses
 
-    conv = Converter(forbid_extra_keys=cfg["forbid"], detailed_validation=cfg["detailed"],
-                     omit_if_default=cfg["omit"])
     ov = None
     if cfg["overrides"] is not None:
         ov = {n: override(**spec) for n, spec in cfg["overrides"].items()}
@@ -169,8 +189,14 @@ def _worker_config(T, cfg, classes, insts):
     except Exception as e:  # noqa: BLE001 - refusal (or crash) at application
         res["apply"] = "raise"
         res["detail"] = _exc_detail(e)
+    return res
+
+
+def _worker_pairs(res, pairs, classes, insts, conv):
+    """structure(unstructure(x, unstructure_as=K), K) for every pair; fills res["pairs"]"""
+    if res["apply"] != "ok":
         return res
-    for K, ii in T["pairs"]:
+    for K, ii in pairs:
         x = insts[ii]
         rec = {"un": None}
         try:
@@ -201,14 +227,52 @@ def _worker_config(T, cfg, classes, insts):
     return res
 
 
+def stage_pairs(T, n0):
+    """the (K, instance) pairs that exist when only the first n0 classes do"""
+    return [[K, ii] for K, ii in T["pairs"] if T["instances"][ii]["cls"] < n0]
+
+
 def _worker_tree(T, tag):
+    """Steps per configuration (every step ends with all (K, x) round trips of the tree as it is THEN):
+      single-stage tree :  "b"  fresh converter, apply
+      staged tree       :  "a"  converter c1, apply while only the first `stage0` classes exist
+                           -- the remaining classes (new leaves, new inner nodes) are defined --
+                           "b"  fresh converter c2, apply
+                           "c"  copy of c1 (taken before anything else happens to c1), apply
+                           "d"  c1 itself, apply again
+                           "e"  c2, apply a second time (same hierarchy)"""
     import linecache
 
-    classes = _worker_realise(T, tag)
-    insts = [classes[i["cls"]](**i["args"]) for i in T["instances"]]
-    out = {"names": [cl.__name__ for cl in classes], "configs": []}
-    for cfg in T["configs"]:
-        out["configs"].append(_worker_config(T, cfg, classes, insts))
+    n0 = T.get("stage0")
+    n = len(T["classes"])
+    out = {"configs": [{"steps": {}} for _ in T["configs"]]}
+    classes, insts, c1s = [], {}, []
+    if n0:
+        classes = _worker_realise(T, tag, classes, n0)
+        for ii, spec in enumerate(T["instances"]):
+            if spec["cls"] < n0:
+                insts[ii] = _worker_instance(spec, classes)
+        p0 = stage_pairs(T, n0)
+        for ci, cfg in enumerate(T["configs"]):
+            c1 = _worker_converter(cfg)
+            out["configs"][ci]["steps"]["a"] = _worker_pairs(_worker_apply(cfg, classes, c1), p0, classes, insts, c1)
+            c1s.append(c1)
+    classes = _worker_realise(T, tag, classes, n)
+    for ii, spec in enumerate(T["instances"]):
+        if ii not in insts:
+            insts[ii] = _worker_instance(spec, classes)
+    out["names"] = [cl.__name__ for cl in classes]
+    for ci, cfg in enumerate(T["configs"]):
+        steps = out["configs"][ci]["steps"]
+        c2 = _worker_converter(cfg)
+        steps["b"] = _worker_pairs(_worker_apply(cfg, classes, c2), T["pairs"], classes, insts, c2)
+        if n0:
+            if steps["a"]["apply"] == "ok":
+                c3 = c1s[ci].copy()
+                steps["c"] = _worker_pairs(_worker_apply(cfg, classes, c3), T["pairs"], classes, insts, c3)
+                steps["d"] = _worker_pairs(_worker_apply(cfg, classes, c1s[ci]), T["pairs"], classes, insts, c1s[ci])
+            if steps["b"]["apply"] == "ok":
+                steps["e"] = _worker_pairs(_worker_apply(cfg, classes, c2), T["pairs"], classes, insts, c2)
     for k in [k for k in linecache.cache if k.startswith("<cattrs generated")]:
         del linecache.cache[k]
     return out
@@ -238,12 +302,34 @@ def worker_main():
 LIT_POOL = [1, 2, 3, "p", "q", "r"]
 
 
-def _fld(name, lit=None, dflt="req", dv=None):
-    return {"name": name, "lit": lit, "dflt": dflt, "dv": dv}
+def _fld(name, lit=None, dflt="req", dv=None, ref=None):
+    f = {"name": name, "lit": lit, "dflt": dflt, "dv": dv}
+    if ref is not None:
+        f["ref"] = ref               # the field is typed as class #ref of the same tree
+    return f
 
 
-def gen_tree(rng, tid, tier):
-    n = rng.choice([1, 2, 2, 3, 3, 3, 4, 4, 5, 5, 6, 7, 8])
+def gen_args(T, c, rng, depth=0):
+    """constructor arguments of an instance of class c; a class-typed field holds an instance of that class or of one of
+    its descendants (at depth: of the class itself, which keeps the nesting finite)"""
+    args = {}
+    for f in eff_fields(T, c):
+        if f.get("ref") is not None:
+            cands = subtree(T, f["ref"]) if depth == 0 else [f["ref"]]
+            v = rng.choice(cands)
+            args[f["name"]] = {"inst": {"cls": v, "args": gen_args(T, v, rng, depth + 1)}}
+            continue
+        if f["dflt"] != "req" and rng.random() < 0.4:
+            continue                 # take the default
+        args[f["name"]] = rng.choice(f["lit"]) if f["lit"] is not None else rng.choice([0, 1, 2, 3])
+    return args
+
+
+def gen_tree(rng, tid, tier, flavour="plain"):
+    """flavour: "plain" (one application on the finished tree), "staged" (the strategy is applied, the hierarchy grows,
+    the strategy is applied again - see `_worker_tree`), "ref" (some class has a field typed as another class of the
+    tree; implementation-side oracle only)"""
+    n = rng.choice([1, 2, 2, 3, 3, 3, 4, 4, 5, 5, 6, 7, 8] if flavour == "plain" else [3, 3, 4, 4, 5, 5, 6, 7, 8])
     shape = rng.choice(["random", "random", "chain", "star", "bushy"])
     parents, depth, nch = [-1], [1], [0]
     for ci in range(1, n):
@@ -260,8 +346,10 @@ def gen_tree(rng, tid, tier):
         depth.append(depth[p] + 1)
         nch.append(0)
         nch[p] += 1
-    literal = n >= 2 and rng.random() < 0.22
+    literal = n >= 2 and rng.random() < 0.22 and flavour != "ref"
     mode = rng.choice(["distinct", "distinct", "distinct", "random", "random"])
+    if flavour == "ref" or (flavour == "staged" and rng.random() < 0.5):
+        mode = "distinct"
     p_default = rng.choice([0.0, 0.0, 0.25, 0.5])
     classes = []
     T = {"id": tid, "kind": rng.choice(["attrs", "dc"]), "classes": classes}
@@ -306,16 +394,27 @@ def gen_tree(rng, tid, tier):
                     for f in c["own"])
     T["kw_only"] = True if (has_default or redefines) else rng.random() < 0.3
     T["literal"] = literal
+    T["stage0"] = None
+    if flavour == "staged":
+        T["stage0"] = rng.choice([1, 2, 2, 3, 3, 4][:max(1, n - 1)] if n > 2 else [1])
+        T["stage0"] = min(T["stage0"], n - 1)
+    if flavour == "ref":
+        inner = [c for c in range(n) if children(T, c)]
+        pos = {c: i for i, c in enumerate(preorder(T))}
+        for _ in range(rng.choice([1, 1, 2])):
+            pairs = [(A, R) for A in range(1, n) for R in inner if R < A
+                     and not any(f.get("ref") is not None for f in classes[A]["own"])]
+            late = [(A, R) for A, R in pairs if pos[R] > pos[A]]      # R is processed after A (region of finding F52)
+            if not pairs:
+                break
+            A, R = rng.choice(late if late and rng.random() < 0.6 else pairs)
+            classes[A]["own"].append(_fld(f"r{A}", ref=R))
+        T["refs"] = True
     # instances: one or two per class
     insts = []
     for ci in range(n):
         for rep in range(1 if rng.random() < 0.6 else 2):
-            args = {}
-            for f in eff_fields(T, ci):
-                if f["dflt"] != "req" and rng.random() < 0.4:
-                    continue                 # take the default
-                args[f["name"]] = rng.choice(f["lit"]) if f["lit"] is not None else rng.choice([0, 1, 2, 3])
-            insts.append({"cls": ci, "args": args})
+            insts.append({"cls": ci, "args": gen_args(T, ci, rng)})
     T["instances"] = insts
     T["pairs"] = [[K, ii] for ii, inst in enumerate(insts) for K in range(n) if is_sub(T, inst["cls"], K)]
     # configurations: {auto, union} x {forbid off, on}
@@ -363,8 +462,11 @@ def fixed_trees():
     def node(parent, *own):
         return {"parent": parent, "own": list(own)}
 
-    def mk(tid, kind, classes, insts, cfgs, literal=False, kw_only=False):
-        T = {"id": tid, "kind": kind, "classes": classes, "kw_only": kw_only, "literal": literal, "instances": insts}
+    def mk(tid, kind, classes, insts, cfgs, literal=False, kw_only=False, stage0=None, refs=False):
+        T = {"id": tid, "kind": kind, "classes": classes, "kw_only": kw_only, "literal": literal, "instances": insts,
+             "stage0": stage0}
+        if refs:
+            T["refs"] = True
         T["pairs"] = [[K, ii] for ii, inst in enumerate(insts) for K in range(len(classes))
                       if is_sub(T, inst["cls"], K)]
         T["configs"] = cfgs
@@ -416,7 +518,38 @@ def fixed_trees():
                    {"cls": 2, "args": {"a": 1, "b": 2, "c": 3}}],
                   [cfg("auto", True, overrides={"b": {"rename": "rb"}}),
                    cfg("union", False, overrides={"a": {"rename": "ra"}}, tag_name="t", tags=["x", "y", "z"])]))
-    # F49: dataclass default_factory field taken for a required one; omit_if_default leaves it out -> the subclass is lost
+    # the hierarchy grows between applications (Shape / Circle / Polygon, then Square(Polygon) and Ellipse(Shape)):
+    # a tree discovered once must not be reused (seeded change "memoised _make_subclasses_tree")
+    out.append(mk(-8, "attrs",
+                  [node(-1, _fld("a")), node(0, _fld("b")), node(0, _fld("c")), node(2, _fld("d")),
+                   node(0, _fld("e"), _fld("f"))],
+                  [{"cls": 0, "args": {"a": 1}}, {"cls": 1, "args": {"a": 1, "b": 2}}, {"cls": 2, "args": {"a": 1, "c": 5}},
+                   {"cls": 3, "args": {"a": 1, "c": 4, "d": 7}}, {"cls": 4, "args": {"a": 1, "e": 3, "f": 1}}],
+                  [cfg("auto", False), cfg("auto", True), cfg("union", False), cfg("union", True),
+                   cfg("union", False, tag_name="kind_")], stage0=3))
+    # ... also when the new class turns a former leaf into a class with subclasses, and with `overrides`
+    out.append(mk(-9, "dc",
+                  [node(-1, _fld("a")), node(0, _fld("b")), node(1, _fld("c")), node(2, _fld("d"))],
+                  [{"cls": 0, "args": {"a": 1}}, {"cls": 1, "args": {"a": 1, "b": 2}},
+                   {"cls": 2, "args": {"a": 1, "b": 2, "c": 3}}, {"cls": 3, "args": {"a": 1, "b": 2, "c": 3, "d": 4}}],
+                  [cfg("auto", False), cfg("union", False), cfg("auto", True, overrides={"b": {"rename": "rb"}}),
+                   cfg("union", True)], stage0=2))
+    # F52: Base{a} / X(Base){b} / B(Base){c} / B1(B){d} / A(X){r4: B}: depth-first, A is processed before B, so A's own
+    # hooks bind B's plain hooks and a B1 inside an A comes back as a B
+    out.append(mk(-10, "attrs",
+                  [node(-1, _fld("a")), node(0, _fld("b")), node(0, _fld("c")), node(2, _fld("d")),
+                   node(1, _fld("r4", ref=2))],
+                  [{"cls": 4, "args": {"a": 1, "b": 0, "r4": {"inst": {"cls": 3, "args": {"a": 2, "c": 3, "d": 4}}}}},
+                   {"cls": 4, "args": {"a": 1, "b": 0, "r4": {"inst": {"cls": 2, "args": {"a": 2, "c": 3}}}}},
+                   {"cls": 3, "args": {"a": 2, "c": 3, "d": 4}}],
+                  [cfg("auto", False), cfg("union", False), cfg("union", True)], refs=True))
+    # ... whereas a field typed as an EARLIER-processed class (here the root) keeps the subclass
+    out.append(mk(-11, "attrs",
+                  [node(-1, _fld("a")), node(0, _fld("b")), node(0, _fld("c"), _fld("r2", ref=0))],
+                  [{"cls": 2, "args": {"a": 1, "c": 4, "r2": {"inst": {"cls": 1, "args": {"a": 2, "b": 3}}}}}],
+                  [cfg("auto", False), cfg("auto", True), cfg("union", False)], refs=True))
+    # (was F49, repaired by 63cd579) a dataclass field with only a default_factory is not a key to recognise a class by:
+    # P{a} / C(P){e = field(default_factory=...)} cannot be told apart, the automatic strategy refuses
     out.append(mk(-7, "dc",
                   [node(-1, _fld("a")), node(0, _fld("e", dflt="factory", dv=1))],
                   [{"cls": 0, "args": {"a": 1}}, {"cls": 1, "args": {"a": 1}}, {"cls": 1, "args": {"a": 1, "e": 2}}],
@@ -448,9 +581,9 @@ def omit_in_effect(cfg, f):
     return bool((cfg["overrides"].get(f["name"]) or {}).get("omit_if_default"))
 
 
-def tree_sx(T, cfg):
+def tree_sx(T, cfg, upto=None):
     out = []
-    for node in T["classes"]:
+    for node in T["classes"][:upto]:
         fs = []
         for f in node["own"]:
             lit = "N" if f["lit"] is None else "(" + " ".join(str(vcode(v)) for v in f["lit"]) + ")"
@@ -478,7 +611,19 @@ def inst_sx(T, inst):
     return f"(I {inst['cls']} {items})"
 
 
-def model_query(drv, T, cfg, names, rev):
+STEP_DOC = {"a": "first application, before the hierarchy grows", "b": "fresh converter, finished hierarchy",
+            "c": "copy of the first converter, applied again after the hierarchy grew",
+            "d": "the first converter itself, applied again after the hierarchy grew",
+            "e": "second application to the same converter, same hierarchy"}
+
+
+def step_pairs(T, step):
+    return stage_pairs(T, T["stage0"]) if step == "a" else T["pairs"]
+
+
+def model_query(drv, T, cfg, names, rev, step="b"):
+    """the model's answer for one step of one configuration (the model is fed the tree as it is at application time; for
+    a repeated application it is told which trees the earlier applications to that converter saw)"""
     from harness import lean, terms
 
     if cfg["strategy"] == "auto":
@@ -486,20 +631,31 @@ def model_query(drv, T, cfg, names, rev):
     else:
         tags = cfg["tags"] if cfg["tags"] is not None else names
         st = f"(union {esc(cfg['tag_name'])} ({' '.join(tag_sx(t) for t in tags)}))"
-    cases = " ".join(f"({K} {inst_sx(T, T['instances'][ii])})" for K, ii in T["pairs"])
-    line = f"SUBCLS {tree_sx(T, cfg)} {st} {1 if cfg['forbid'] else 0} {1 if rev else 0} ({cases})"
+    pairs = step_pairs(T, step)
+    cases = " ".join(f"({K} {inst_sx(T, T['instances'][ii])})" for K, ii in pairs)
+    fb, rv = (1 if cfg["forbid"] else 0), (1 if rev else 0)
+    if step == "a":
+        line = f"SUBCLS {tree_sx(T, cfg, T['stage0'])} {st} {fb} {rv} ({cases})"
+    elif step == "b":
+        line = f"SUBCLS {tree_sx(T, cfg)} {st} {fb} {rv} ({cases})"
+    else:
+        first = tree_sx(T, cfg, T["stage0"]) if step in ("c", "d") else tree_sx(T, cfg)
+        inherit = 1 if cfg["overrides"] is None else 0
+        line = f"SUBCLSN ({first} {tree_sx(T, cfg)}) {st} {fb} {rv} {inherit} ({cases})"
     r = drv.ask(line)
     if not r.startswith("(("):
         raise lean.InfraError(f"model driver answered {r!r} to {line[:400]}")
     p = terms.parse_sx(r)
-    M = {"scope": {}, "out": [], "inscope": [], "un": []}
+    M = {"scope": {}, "out": [], "inscope": [], "un": [], "applies": [True]}
     for e in p:
         if e[0] == "apply":
             M["apply"] = e[1] == "1"
+        elif e[0] == "applies":
+            M["applies"] = [b == "1" for b in e[1:]]
         elif e[0] == "scope":
             M["scope"][e[1]] = e[2] == "1"
         elif e[0] == "cases":
-            for (K, ii), c in zip(T["pairs"], e[1:]):
+            for (K, ii), c in zip(pairs, e[1:]):
                 un, rt, sc = c
                 M["inscope"].append(sc == "1")
                 M["un"].append(un)
@@ -511,8 +667,9 @@ def model_query(drv, T, cfg, names, rev):
                 got = {f[0][1]: int(f[1][1]) for f in o[2:]}
                 want = {n: vcode(v) for n, v in full_values(T, T["instances"][ii]).items()}
                 M["out"].append(f"ok:{cls}:{1 if (cls == T['instances'][ii]['cls'] and got == want) else 0}")
-    if len(M["out"]) != len(T["pairs"]):
+    if len(M["out"]) != len(pairs):
         raise lean.InfraError("model driver answered a different number of cases")
+    M["apply"] = M["apply"] and all(M["applies"])
     return M
 
 
@@ -522,7 +679,8 @@ def model_query(drv, T, cfg, names, rev):
 
 def ref_fields(T, cfg, c):
     """key -> (truly required?, literal values or None)"""
-    return {key_of(cfg, f["name"]): (f["dflt"] == "req", f["lit"]) for f in eff_fields(T, c)}
+    return {key_of(cfg, f["name"]): (f["dflt"] == "req", "ref" if f.get("ref") is not None else f["lit"])
+            for f in eff_fields(T, c)}
 
 
 def ref_union_distinguishable(T, cfg, members, by_attributes_only=False):
@@ -531,7 +689,7 @@ def ref_union_distinguishable(T, cfg, members, by_attributes_only=False):
     True / False; None when all members share a Literal-typed attribute (value-based discrimination: no verdict) unless
     `by_attributes_only`."""
     fs = {c: ref_fields(T, cfg, c) for c in members}
-    common_lit = set.intersection(*[{k for k, (_, lit) in fs[c].items() if lit is not None} for c in members])
+    common_lit = set.intersection(*[{k for k, (_, lit) in fs[c].items() if isinstance(lit, list)} for c in members])
     if common_lit and not by_attributes_only:
         return None
     rest = set(members)
@@ -551,7 +709,7 @@ def ref_literal_peers(T, cfg, members, u):
     for c in members:
         ok = True
         for k, (_, lit) in ref_fields(T, cfg, c).items():
-            if lit is not None and k in u and not any(type(u[k]) is type(x) and u[k] == x for x in lit):
+            if isinstance(lit, list) and k in u and not any(type(u[k]) is type(x) and u[k] == x for x in lit):
                 ok = False
         if ok:
             out.append(c)
@@ -582,7 +740,10 @@ def ref_payload_fits(T, cfg, c, u):
                 return False
             continue
         v = u[k]
-        if lit is not None:
+        if lit == "ref":
+            if not isinstance(v, dict):
+                return False
+        elif lit is not None:
             if not any(type(v) is type(x) and v == x for x in lit):
                 return False
         elif not isinstance(v, int):
@@ -590,14 +751,27 @@ def ref_payload_fits(T, cfg, c, u):
     return True
 
 
-def factory_key_region(T, cfg, D, u):
-    """region of finding F49 (and the only place where the outcome may depend on the iteration order of a set of
-    strings, which the model leaves open): dataclasses, automatic strategy, the unstructured form lacks the key of a
-    default_factory field of x's class - a key the disambiguator may have chosen to recognise the class by"""
-    if not (T["kind"] == "dc" and cfg["strategy"] == "auto" and isinstance(u, dict)):
-        return False
-    return any(f["dflt"] == "factory" and omit_in_effect(cfg, f) and key_of(cfg, f["name"]) not in u
-               for f in eff_fields(T, D))
+def preorder(T, c=0):
+    """`_make_subclasses_tree`: the order in which the strategy processes the classes"""
+    out = [c]
+    for ch in children(T, c):
+        out += preorder(T, ch)
+    return out
+
+
+def early_bound_loss(T, spec):
+    """region of finding F52, judged on the instance alone: somewhere inside it an instance of class H holds, under a
+    field typed R (another class of the tree), an instance of a strict descendant of R, where R is processed AFTER H by the
+    depth-first walk - H's own hooks were generated (and bound R's plain hooks) before the strategy got to R"""
+    pos = {c: i for i, c in enumerate(preorder(T))}
+    H = spec["cls"]
+    for f in eff_fields(T, H):
+        if f.get("ref") is None:
+            continue
+        v = spec["args"][f["name"]]["inst"]
+        if (v["cls"] != f["ref"] and pos[f["ref"]] > pos[H]) or early_bound_loss(T, v):
+            return True
+    return False
 
 
 def inner_nodes(T):
@@ -608,52 +782,42 @@ def inner_nodes(T):
 # parent: workers, known findings
 # =====================================================================================================
 
-def run_workers(trees, seeds, tag, chunk=200):
-    """fresh interpreters per chunk of trees (`include_subclasses` calls gc.collect(), which gets slower as classes
-    pile up); returns {seed: results}"""
-    res = None
-    for i in range(0, len(trees), chunk):
-        part = _run_workers(trees[i:i + chunk], seeds, f"{tag}{i // chunk}x")
-        if res is None:
-            res = part
-        else:
-            for s in seeds:
-                res[s]["results"].update(part[s]["results"])
-    return res
-
-
-def _run_workers(trees, seeds, tag):
-    """one subprocess per hash seed, all in parallel; returns {seed: results}"""
+def run_workers(trees, seeds, tag, chunk=100, parallel=8):
+    """fresh interpreters per chunk of trees (`include_subclasses` calls gc.collect(), which gets slower as classes pile
+    up) and per hash seed, at most `parallel` at a time; returns {seed: results}"""
     import threading
 
     env0 = dict(os.environ)
     env0["PYTHONPATH"] = "/verif:" + os.environ.get("CATTRS_SRC", "/repo/src")
     env0["PYTHONDONTWRITEBYTECODE"] = "1"
-    data = json.dumps({"tag": tag, "trees": trees})
-    procs = []
-    for s in seeds:
-        env = dict(env0)
-        env["PYTHONHASHSEED"] = str(s)
-        p = subprocess.Popen([sys.executable, "-m", "harness.props.c14", "--worker"], cwd="/tmp", env=env,
-                             stdin=subprocess.PIPE, stdout=subprocess.PIPE, stderr=subprocess.PIPE, text=True)
-        procs.append((s, p))
-    outs = {}
+    jobs = [(s, i) for i in range(0, len(trees), chunk) for s in seeds]
+    outs, sem = {}, threading.Semaphore(parallel)
 
-    def pump(s, p):
-        outs[s] = p.communicate(data)
+    def work(s, i):
+        with sem:
+            env = dict(env0)
+            env["PYTHONHASHSEED"] = str(s)
+            p = subprocess.Popen([sys.executable, "-m", "harness.props.c14", "--worker"], cwd="/tmp", env=env,
+                                 stdin=subprocess.PIPE, stdout=subprocess.PIPE, stderr=subprocess.PIPE, text=True)
+            so, se = p.communicate(json.dumps({"tag": f"{tag}{i // chunk}x", "trees": trees[i:i + chunk]}))
+            outs[(s, i)] = (p.returncode, so, se)
 
-    ths = [threading.Thread(target=pump, args=sp) for sp in procs]
+    ths = [threading.Thread(target=work, args=j) for j in jobs]
     for t in ths:
         t.start()
     for t in ths:
         t.join()
     res = {}
-    for s, p in procs:
-        so, se = outs[s]
-        if p.returncode != 0:
+    for (s, i) in jobs:
+        rc, so, se = outs[(s, i)]
+        if rc != 0:
             from harness import lean
             raise lean.InfraError(f"C14 worker (PYTHONHASHSEED={s}) failed: {se[-1500:]}")
-        res[s] = json.loads(so)
+        part = json.loads(so)
+        if s not in res:
+            res[s] = part
+        else:
+            res[s]["results"].update(part["results"])
     return res
 
 
@@ -669,6 +833,11 @@ def _only_forbidden_extra(detail, key):
     return False
 
 
+def case_tree(case):
+    """the tree as it was at the application the failing step belongs to"""
+    return step_tree(case["tree"], case.get("step", "b"))
+
+
 def _install_findings():
     from harness import framework
 
@@ -677,7 +846,7 @@ def _install_findings():
         """F15: union strategy + forbid_extra_keys + K has no subclasses (and the tree has some) + the only failure is the
         member hook rejecting the tag key"""
         try:
-            T, cfg = case["tree"], case["config"]
+            T, cfg = case_tree(case), case["config"]
             return (case.get("kind") == "pair" and cfg["strategy"] == "union" and cfg["forbid"] is True
                     and len(T["classes"]) >= 2 and not children(T, case["K"])
                     and T["instances"][case["inst"]]["cls"] == case["K"]
@@ -690,7 +859,7 @@ def _install_findings():
         """F47: automatic strategy, RecursionError while structuring an instance of a class that has subclasses, one of
         whose Literal values (of an attribute that is Literal-typed in every class below it) a strict descendant shares"""
         try:
-            T, cfg = case["tree"], case["config"]
+            T, cfg = case_tree(case), case["config"]
             if not (case.get("kind") == "pair" and cfg["strategy"] == "auto" and case["impl"] == "err-st"
                     and (case.get("detail") or {}).get("exc") == "RecursionError"):
                 return False
@@ -724,23 +893,34 @@ def _install_findings():
         except Exception:  # noqa: BLE001
             return False
 
+    @framework.finding("subclasses-union-reapplied-forbid")
+    def f53(case):
+        """F53: union strategy + forbid_extra_keys, no `overrides`, the strategy applied to a converter (or a copy of one)
+        it had been applied to before: KeyError while structuring an instance of a class that had subclasses at the EARLIER
+        application (its captured hook is the earlier union hook, which looks for the tag the new one has popped)"""
+        try:
+            T, cfg, step = case["tree"], case["config"], case.get("step")
+            if not (case.get("kind") == "pair" and cfg["strategy"] == "union" and cfg["forbid"] is True
+                    and cfg["overrides"] is None and step in ("c", "d", "e") and case["impl"] == "err-st"
+                    and (case.get("detail") or {}).get("exc") == "KeyError"):
+                return False
+            earlier = step_tree(T, "a") if step in ("c", "d") else T
+            D = T["instances"][case["inst"]]["cls"]
+            return D < len(earlier["classes"]) and bool(children(earlier, D))
+        except Exception:  # noqa: BLE001
+            return False
 
-    @framework.finding("dataclass-factory-default-taken-for-required")
-    def f49(case):
-        """F49: automatic strategy on dataclasses: the disambiguator takes a field that only has a default_factory for a
-        required one and keys a class on it; omit_if_default leaves the key out, so the instance is structured as the
-        fallback class (silently, or rejected by forbid_extra_keys) - or not, depending on which of the class's unique
-        keys the iteration order of a Python set offers first.  Recognised when: dataclass tree, automatic strategy, the
-        unstructured form lacks the key of a default_factory field of x's class (`factory_key_region`), and the result is
-        another class, a raise, or differs between hash seeds."""
+    @framework.finding("subclasses-auto-class-typed-field-early-bound")
+    def f52(case):
+        """F52: automatic strategy; x holds (possibly nested) an instance of a strict descendant of R under a field typed
+        R, inside an instance of a class the depth-first walk processes BEFORE R (`early_bound_loss`); the round trip
+        returns x's own class but an unequal value (the nested instance came back as a plain R)"""
         try:
             T, cfg = case["tree"], case["config"]
-            if not (case.get("kind") in ("pair", "seed") and factory_key_region(T, cfg, T["instances"][case["inst"]]["cls"],
-                                                                                 case.get("un"))):
+            if not (case.get("kind") == "pair" and cfg["strategy"] == "auto" and T.get("refs")):
                 return False
-            D = T["instances"][case["inst"]]["cls"]
-            impl = case["impl"]
-            return impl == "err-st" or (impl.startswith("ok:") and int(impl.split(":")[1]) != D) or case["kind"] == "seed"
+            inst = T["instances"][case["inst"]]
+            return case["impl"] == f"ok:{inst['cls']}:0" and early_bound_loss(T, inst)
         except Exception:  # noqa: BLE001
             return False
 
@@ -759,12 +939,18 @@ PENDING_FINDINGS = [
      "what": "Literal discriminator attribute with a default + omit_if_default: unstructure leaves the key out and the "
              "disambiguation function reads data[<discriminator>] unconditionally: KeyError (also for a plain Union; "
              "C12's LitKeysPresent hypothesis)"},
-    {"id": "F49", "property": "C14", "kind": "finding", "signature": "dataclass-factory-default-taken-for-required",
-     "what": "create_default_dis_func tests cl_fields[name].default in (NOTHING, MISSING): a dataclass field with only a "
-             "default_factory counts as required and a class is keyed on it; with omit_if_default the key is absent, so "
-             "P{a} / C(P){e = field(default_factory=...)}: structure(unstructure(C(a=1), P), P) returns P(a=1) - the "
-             "subclass is silently lost (ForbiddenExtraKeysError instead when forbid_extra_keys and C has further keys); "
-             "same for a plain Union[A, B]"},
+    {"id": "F53", "property": "C14", "kind": "finding", "signature": "subclasses-union-reapplied-forbid",
+     "what": "include_subclasses with a union strategy applied a second time to the same converter (or to a copy of it, e.g. "
+             "to pick up classes defined since) with forbid_extra_keys=True and no overrides: the second application "
+             "captures the FIRST application's union structure hook as the class's own hook; the new union hook pops the tag "
+             "and the old one then fails to find it: KeyError('_type') for every instance of a class that already had "
+             "subclasses at the first application"},
+    {"id": "F52", "property": "C14", "kind": "finding", "signature": "subclasses-auto-class-typed-field-early-bound",
+     "what": "include_subclasses, automatic strategy: the per-class hooks are generated class by class in depth-first order, "
+             "so a field typed as a class R of the hierarchy that is processed LATER (a later sibling branch, or a "
+             "descendant) is bound to R's plain hooks: Base{a} / A(Base){child: B} / B(Base){b} / B1(B){c}: "
+             "A(1, B1(2, 3, 4)) unstructures to {'a': 1, 'child': {'a': 2, 'b': 3}} and comes back as A(1, B(2, 3)) - the "
+             "nested subclass is silently lost (the union strategy forces run-time dispatch and is not affected)"},
 ]
 
 
@@ -791,6 +977,8 @@ def tree_source(T, cfg=None):
             lines.append("    pass")
         for f in node["own"]:
             ty = "Literal[" + ", ".join(repr(v) for v in f["lit"]) + "]" if f["lit"] is not None else "int"
+            if f.get("ref") is not None:
+                ty = f"K{f['ref']}"
             d = ""
             if f["dflt"] == "const":
                 d = f" = {f['dv']!r}"
@@ -798,6 +986,8 @@ def tree_source(T, cfg=None):
                 d = (f" = attrs.Factory(lambda: {f['dv']!r})" if T["kind"] == "attrs"
                      else f" = dataclasses.field(default_factory=lambda: {f['dv']!r})")
             lines.append(f"    {f['name']}: {ty}{d}")
+        if T.get("stage0") and ci == T["stage0"] - 1:
+            lines.append("# ---- step a: include_subclasses(K0, c1, ...) is applied HERE, with the classes above; then:")
     if cfg is not None:
         lines.append("")
         lines.append(f"conv = Converter(forbid_extra_keys={cfg['forbid']}, detailed_validation={cfg['detailed']}, "
@@ -818,10 +1008,14 @@ def tree_source(T, cfg=None):
     return "\n".join(lines)
 
 
-def call_source(T, K, ii):
-    inst = T["instances"][ii]
-    args = ", ".join(f"{n}={v!r}" for n, v in inst["args"].items())
-    return f"x = K{inst['cls']}({args}); conv.structure(conv.unstructure(x, unstructure_as=K{K}), K{K})"
+def inst_source(spec):
+    args = ", ".join(f"{n}={(inst_source(v['inst']) if isinstance(v, dict) else repr(v))}" for n, v in spec["args"].items())
+    return f"K{spec['cls']}({args})"
+
+
+def call_source(T, K, ii, step="b"):
+    pre = "" if not T.get("stage0") else f"# step {step}: {STEP_DOC[step]}\n"
+    return pre + f"x = {inst_source(T['instances'][ii])}; conv.structure(conv.unstructure(x, unstructure_as=K{K}), K{K})"
 
 
 # =====================================================================================================
@@ -843,6 +1037,14 @@ def in_property(T, cfg):
     return True
 
 
+def step_tree(T, step):
+    """the tree as it is when the step's application happens (the oracle's references look at this one)"""
+    if step != "a":
+        return T
+    n0 = T["stage0"]
+    return dict(T, classes=T["classes"][:n0])
+
+
 def evaluate(chk, drv, trees, wres, seeds, count=True):
     """oracle + correspondence over a batch; returns (oracle_failures, corr_failures): lists of (what, case)"""
     from harness import lean
@@ -860,99 +1062,134 @@ def evaluate(chk, drv, trees, wres, seeds, count=True):
             continue
         names = Rs[s0]["names"]
         n = len(T["classes"])
-        inner = inner_nodes(T)
+        modelled = not T.get("refs")
         for ci, cfg in enumerate(T["configs"]):
-            M = model_query(drv, T, cfg, names, rev=False)
-            M1 = model_query(drv, T, cfg, names, rev=True)
-            order_dep = [a != b for a, b in zip(M["out"], M1["out"])]
             prop = in_property(T, cfg)
-
-            def case_of(kind, s, **kw):
-                d = {"kind": kind, "tree": T, "config_index": ci, "config": cfg, "hashseed": s, "seeds": seeds,
-                     "source": tree_source(T, cfg)}
-                d.update(kw)
-                return d
-
-            # ---------- application of the strategy
-            applies = {s: Rs[s]["configs"][ci]["apply"] for s in seeds}
-            if len(set(applies.values())) > 1 and prop:
-                oracle_fail.append(("applying the strategy succeeds or raises depending on PYTHONHASHSEED: " + str(applies),
-                                    case_of("apply", s0, impl=applies)))
-            for s in seeds:
-                C = Rs[s]["configs"][ci]
-                if C["apply"] == "raise":
+            for step in sorted(Rs[s0]["configs"][ci]["steps"]):
+                if any(step not in Rs[s]["configs"][ci]["steps"] for s in seeds):
                     if prop:
-                        if cfg["strategy"] == "union":
-                            oracle_fail.append(("applying include_subclasses with a union strategy raised "
-                                                f"{C['detail'].get('exc')}", case_of("apply", s, impl="raise", detail=C["detail"])))
-                        else:
-                            verdicts = [ref_union_distinguishable(T, cfg, subtree(T, K)) for K in inner]
-                            if all(v is True for v in verdicts):
-                                oracle_fail.append((
-                                    "the automatic strategy was refused although every class of every reduced union has an "
-                                    f"attribute of its own ({C['detail'].get('exc')})",
-                                    case_of("apply", s, impl="raise", detail=C["detail"])))
-                    if M["apply"] or M1["apply"]:
-                        corr_fail.append((f"apply: impl raised, model applies (config #{ci}, PYTHONHASHSEED={s})",
-                                          case_of("apply", s, impl="raise", model="ok")))
+                        oracle_fail.append((f"step {step} reached or not depending on PYTHONHASHSEED (an earlier application "
+                                            "succeeds or raises)", {"kind": "apply", "tree": T, "config_index": ci, "config": cfg,
+                                                                    "step": step, "hashseed": s0, "seeds": seeds,
+                                                                    "source": tree_source(T, cfg)}))
                     continue
-                if not (M["apply"] and M1["apply"]):
-                    corr_fail.append((f"apply: impl applied, model refuses (config #{ci}, PYTHONHASHSEED={s})",
-                                      case_of("apply", s, impl="ok", model="raise")))
-                    continue
-                # ---------- every (K, x)
-                for pi, (K, ii) in enumerate(T["pairs"]):
-                    P = C["pairs"][pi]
-                    D = T["instances"][ii]["cls"]
-                    out = P["out"]
-                    if count:
-                        chk.count((tid, ci, K, ii) if s == s0 else None, nontrivial=n >= 2)
-                    if prop and out != f"ok:{D}:1":
-                        legit = False
-                        if out == "err-st" and cfg["strategy"] == "auto":
-                            legit = ref_refusal_permitted(T, cfg, K, D, P["un"])
-                        if not legit:
-                            oracle_fail.append((
-                                f"structure(unstructure(x, unstructure_as=K{K}), K{K}) for an instance of K{D}: {out} "
-                                f"{(P.get('detail') or {}).get('exc', '')} [{cfg['strategy']}, forbid_extra_keys={cfg['forbid']}, "
-                                f"PYTHONHASHSEED={s}]",
-                                case_of("pair", s, K=K, inst=ii, impl=out, detail=P.get("detail"), un=P["un"],
-                                        call=call_source(T, K, ii))))
-                    if prop and s != s0 and Rs[s0]["configs"][ci]["apply"] == "ok" \
-                            and canon(out) != canon(Rs[s0]["configs"][ci]["pairs"][pi]["out"]):
-                        oracle_fail.append((f"outcome depends on PYTHONHASHSEED: {out} vs "
-                                            f"{Rs[s0]['configs'][ci]['pairs'][pi]['out']}",
-                                            case_of("seed", s, K=K, inst=ii, impl=out, un=P["un"], call=call_source(T, K, ii))))
-                    if order_dep[pi] or factory_key_region(T, cfg, D, P["un"]):
-                        if count and s == s0:
-                            chk.unmodelled += 1
+                Ts = step_tree(T, step)
+                pairs = step_pairs(T, step)
+                inner = inner_nodes(Ts)
+                M = M1 = None
+                order_dep = [False] * len(pairs)
+                if modelled:
+                    M = model_query(drv, T, cfg, names, False, step)
+                    M1 = model_query(drv, T, cfg, names, True, step)
+                    order_dep = [a != b for a, b in zip(M["out"], M1["out"])]
+
+                def case_of(kind, s, **kw):
+                    d = {"kind": kind, "tree": T, "config_index": ci, "config": cfg, "step": step, "hashseed": s,
+                         "seeds": seeds, "source": tree_source(T, cfg)}
+                    d.update(kw)
+                    return d
+
+                # ---------- application of the strategy
+                applies = {s: Rs[s]["configs"][ci]["steps"][step]["apply"] for s in seeds}
+                if len(set(applies.values())) > 1 and prop:
+                    oracle_fail.append(("applying the strategy succeeds or raises depending on PYTHONHASHSEED: " + str(applies),
+                                        case_of("apply", s0, impl=applies)))
+                for s in seeds:
+                    C = Rs[s]["configs"][ci]["steps"][step]
+                    C0 = Rs[s0]["configs"][ci]["steps"][step]
+                    if C["apply"] == "raise":
+                        if prop:
+                            if cfg["strategy"] == "union":
+                                oracle_fail.append((f"[step {step}] applying include_subclasses with a union strategy raised "
+                                                    f"{C['detail'].get('exc')}",
+                                                    case_of("apply", s, impl="raise", detail=C["detail"])))
+                            else:
+                                verdicts = [ref_union_distinguishable(Ts, cfg, subtree(Ts, K)) for K in inner]
+                                if all(v is True for v in verdicts):
+                                    oracle_fail.append((
+                                        f"[step {step}] the automatic strategy was refused although every class of every reduced "
+                                        f"union has an attribute of its own ({C['detail'].get('exc')})",
+                                        case_of("apply", s, impl="raise", detail=C["detail"])))
+                        if modelled and (M["apply"] or M1["apply"]):
+                            corr_fail.append((f"apply: impl raised, model applies (config #{ci} step {step}, PYTHONHASHSEED={s})",
+                                              case_of("apply", s, impl="raise", model="ok")))
                         continue
-                    if canon(out) != M["out"][pi]:
-                        corr_fail.append((f"K{K} <- instance #{ii} of K{D}: impl={canon(out)} model={M['out'][pi]} "
-                                          f"(config #{ci} {cfg['strategy']}, PYTHONHASHSEED={s})",
-                                          case_of("pair", s, K=K, inst=ii, impl=out, model=M["out"][pi], un=P["un"],
-                                                  call=call_source(T, K, ii))))
-                    if M["inscope"][pi] and out != f"ok:{D}:1" and count and s == s0:
-                        chk.note("in-scope-but-failed")
-                    if count and s == s0:
-                        chk.note("scope:" + ("in" if M["inscope"][pi] else "out"),
-                                 "outcome:" + canon(out).split(":")[0] + (":" + out.split(":")[2] if out.startswith("ok:") else ""),
-                                 "K:" + ("leaf" if not children(T, K) else "inner") + ("=D" if K == D else ">D"))
+                    if modelled and not (M["apply"] and M1["apply"]):
+                        corr_fail.append((f"apply: impl applied, model refuses (config #{ci} step {step}, PYTHONHASHSEED={s})",
+                                          case_of("apply", s, impl="ok", model="raise")))
+                        continue
+                    # ---------- every (K, x)
+                    for pi, (K, ii) in enumerate(pairs):
+                        P = C["pairs"][pi]
+                        D = T["instances"][ii]["cls"]
+                        out = P["out"]
+                        if count:
+                            chk.count((tid, ci, step, K, ii) if s == s0 else None, nontrivial=n >= 2)
+                        if prop and out != f"ok:{D}:1":
+                            legit = False
+                            if out == "err-st" and cfg["strategy"] == "auto":
+                                legit = ref_refusal_permitted(Ts, cfg, K, D, P["un"])
+                            if not legit:
+                                oracle_fail.append((
+                                    f"[step {step}] structure(unstructure(x, unstructure_as=K{K}), K{K}) for an instance of K{D}: "
+                                    f"{out} {(P.get('detail') or {}).get('exc', '')} [{cfg['strategy']}, "
+                                    f"forbid_extra_keys={cfg['forbid']}, PYTHONHASHSEED={s}]",
+                                    case_of("pair", s, K=K, inst=ii, impl=out, detail=P.get("detail"), un=P["un"],
+                                            call=call_source(T, K, ii, step))))
+                        if prop and s != s0 and C0["apply"] == "ok" and canon(out) != canon(C0["pairs"][pi]["out"]):
+                            oracle_fail.append((f"[step {step}] outcome depends on PYTHONHASHSEED: {out} vs "
+                                                f"{C0['pairs'][pi]['out']}",
+                                                case_of("seed", s, K=K, inst=ii, impl=out, un=P["un"],
+                                                        call=call_source(T, K, ii, step))))
+                        if not modelled:
+                            if count and s == s0:
+                                chk.note("impl-only:" + canon(out).split(":")[0] +
+                                         (":" + out.split(":")[2] if out.startswith("ok:") else ""))
+                            continue
+                        if order_dep[pi]:
+                            if count and s == s0:
+                                chk.unmodelled += 1
+                            continue
+                        if canon(out) != M["out"][pi]:
+                            corr_fail.append((f"[step {step}] K{K} <- instance #{ii} of K{D}: impl={canon(out)} "
+                                              f"model={M['out'][pi]} (config #{ci} {cfg['strategy']}, PYTHONHASHSEED={s})",
+                                              case_of("pair", s, K=K, inst=ii, impl=out, model=M["out"][pi], un=P["un"],
+                                                      call=call_source(T, K, ii, step))))
+                        if M["inscope"][pi] and out != f"ok:{D}:1" and count and s == s0:
+                            chk.note("in-scope-but-failed")
+                        if count and s == s0:
+                            chk.note("scope:" + ("in" if M["inscope"][pi] else "out"),
+                                     "outcome:" + canon(out).split(":")[0] + (":" + out.split(":")[2] if out.startswith("ok:") else ""),
+                                     "K:" + ("leaf" if not children(Ts, K) else "inner") + ("=D" if K == D else ">D"))
+                if count:
+                    chk.note("step:" + step, "step-%s-apply:%s" % (step, Rs[s0]["configs"][ci]["steps"][step]["apply"]))
+                    if modelled:
+                        for k, v in M["scope"].items():
+                            chk.note(f"{cfg['strategy']}:{k}:{int(v)}")
             if count:
                 chk.note("strategy:" + cfg["strategy"], "forbid:" + str(int(cfg["forbid"])),
-                         "apply:" + Rs[s0]["configs"][ci]["apply"],
                          "overrides:" + ("none" if cfg["overrides"] is None else
                                          "rename" if any("rename" in v for v in cfg["overrides"].values()) else
                                          "omit" if cfg["overrides"] else "empty"),
                          "in-property" if prop else "non-injective-tags")
-                for k, v in M["scope"].items():
-                    chk.note(f"{cfg['strategy']}:{k}:{int(v)}")
         if count:
             chk.note("classes:%d" % n, "kind:" + T["kind"], "literal" if T["literal"] else "no-literal",
+                     "flavour:" + ("ref" if T.get("refs") else "staged" if T.get("stage0") else "plain"),
                      "depth:%d" % max(len([1 for k in range(n) if is_sub(T, c, k)]) for c in range(n)))
+            if T.get("stage0"):
+                grown = set(range(T["stage0"], n))
+                chk.note("growth:new-leaf-under-old-inner" if any(
+                    T["classes"][c]["parent"] < T["stage0"] and any(T["classes"][o]["parent"] == T["classes"][c]["parent"]
+                                                                    for o in range(T["stage0"]) if o != c) for c in grown) else
+                         "growth:other")
+                if any(T["classes"][c]["parent"] < T["stage0"] and not any(
+                        T["classes"][o]["parent"] == T["classes"][c]["parent"] for o in range(T["stage0"])) for c in grown):
+                    chk.note("growth:old-leaf-becomes-inner")
+                if any(T["classes"][c]["parent"] >= T["stage0"] for c in grown):
+                    chk.note("growth:new-inner-node")
             if len(chk.samples) < 5 and n >= 3:
                 chk.samples.append({"classes": tree_source(T), "pairs": len(T["pairs"]),
-                                    "impl": [p["out"] for p in Rs[s0]["configs"][0]["pairs"][:6]]})
+                                    "impl": [p["out"] for p in Rs[s0]["configs"][0]["steps"]["b"]["pairs"][:6]]})
     return oracle_fail, corr_fail
 
 
@@ -984,7 +1221,8 @@ def variants(T, rng, base_id):
                 cands.append(cs)
     rng.shuffle(cands)
     for vi, cs in enumerate(cands[:30]):
-        V = {"id": base_id + vi, "kind": T["kind"], "classes": cs, "kw_only": True, "literal": T["literal"]}
+        V = {"id": base_id + vi, "kind": T["kind"], "classes": cs, "kw_only": True, "literal": T["literal"],
+             "stage0": min(T["stage0"], len(cs) - 1) if T.get("stage0") and len(cs) > 1 else None}
         insts = []
         for ci in range(len(cs)):
             insts.append({"cls": ci, "args": {f["name"]: (f["lit"][0] if f["lit"] is not None else 1)
@@ -1008,11 +1246,15 @@ def run(chk):
     ensure_findings(chk)
     rng = chk.rng
     quick = chk.tier == "quick"
-    n_trees = 400 if quick else 2500
+    n_trees = 260 if quick else 1800
+    n_staged = 80 if quick else 500
+    n_ref = 60 if quick else 300
     seeds = [0] if quick else [0, 1, 2]
     seeds = seeds + [100 + (chk.seed * 7919 + 13) % 4000]
     drv = lean.Driver()
-    trees = fixed_trees() + [gen_tree(rng, i, chk.tier) for i in range(n_trees)]
+    trees = (fixed_trees() + [gen_tree(rng, i, chk.tier) for i in range(n_trees)]
+             + [gen_tree(rng, 10000 + i, chk.tier, "staged") for i in range(n_staged)]
+             + [gen_tree(rng, 20000 + i, chk.tier, "ref") for i in range(n_ref)])
     t0 = time.time()
     wres = run_workers(trees, seeds, "M")
     chk.extra["worker_wall_s"] = round(time.time() - t0, 1)
@@ -1024,7 +1266,7 @@ def run(chk):
     seen = set()
     real = 0
     for what, case in oracle_fail:
-        key = (case["tree"]["id"], case["config_index"], case.get("K"), case.get("inst"), case["kind"])
+        key = (case["tree"]["id"], case["config_index"], case.get("step"), case.get("K"), case.get("inst"), case["kind"])
         if key in seen:
             continue
         seen.add(key)
@@ -1050,6 +1292,7 @@ def run(chk):
             done.add(T["id"])
             extra += variants(T, rng, 100000 + 1000 * len(done))
         extra += [gen_tree(rng, 200000 + i, chk.tier) for i in range(n_trees)]
+        extra += [gen_tree(rng, 300000 + i, chk.tier, "staged") for i in range(n_staged)]
         wres2 = run_workers(extra, seeds, "X")
         found, _ = evaluate(chk, drv, extra, wres2, seeds, count=False)
         got = False
@@ -1068,7 +1311,10 @@ def run(chk):
     chk.extra["rule"] = ("random class trees (<= 8 classes, depth <= 4, branching <= 3; attrs / dataclasses; own, shared, "
                          "redefined, defaulted and Literal fields) x {automatic, tagged-union} x forbid_extra_keys x random "
                          "detailed_validation / omit_if_default / overrides / tag name+generator x every (K, instance of a "
-                         "descendant) x PYTHONHASHSEED subprocesses; distinct by (tree, configuration, K, instance)")
+                         "descendant) x PYTHONHASHSEED subprocesses; staged trees: apply, grow the hierarchy (new leaves, old "
+                         "leaves becoming inner nodes, new inner nodes), apply to a fresh converter / to a copy of the first / "
+                         "to the first again / twice to the same; trees with class-typed fields (implementation-side oracle "
+                         "only); distinct by (tree, configuration, step, K, instance)")
     chk.extra["corr_disagreements"] = len(corr_fail)
     drv.close()
 
@@ -1092,34 +1338,38 @@ def replay(case):
         if "error" in R:
             print("tree rejected:", R["error"])
             return 2
-        C = R["configs"][ci]
-        M = model_query(drv, T, cfg, R["names"], rev=False)
-        print(f"PYTHONHASHSEED={s}: apply impl={C['apply']} model={'ok' if M['apply'] else 'raise'} scope={M['scope']}")
-        for pi, (K, ii) in enumerate(T["pairs"]):
-            if C["apply"] != "ok":
-                break
-            P = C["pairs"][pi]
-            D = T["instances"][ii]["cls"]
-            mark = "" if P["out"] == f"ok:{D}:1" else "   <-- property fails" if in_property(T, cfg) else "   (outside the property)"
-            print(f"  K{K} <- #{ii} (K{D}): un={P['un']} impl={P['out']} {(P.get('detail') or {}).get('exc', '')} "
-                  f"model={M['out'][pi]} inscope={int(M['inscope'][pi])}{mark}")
-    drv2 = lean.Driver()
+        for step, C in sorted(R["configs"][ci]["steps"].items()):
+            if case.get("step") and step != case["step"]:
+                continue
+            M = None if T.get("refs") else model_query(drv, T, cfg, R["names"], False, step)
+            print(f"PYTHONHASHSEED={s} step {step} ({STEP_DOC[step]}): apply impl={C['apply']} "
+                  + (f"model={'ok' if M['apply'] else 'raise'} scope={M['scope']}" if M else "(no model: class-typed fields)"))
+            for pi, (K, ii) in enumerate(step_pairs(T, step)):
+                if C["apply"] != "ok":
+                    break
+                P = C["pairs"][pi]
+                D = T["instances"][ii]["cls"]
+                mark = "" if P["out"] == f"ok:{D}:1" else "   <-- property fails" if in_property(T, cfg) else "   (outside the property)"
+                print(f"  K{K} <- #{ii} (K{D}): un={P['un']} impl={P['out']} {(P.get('detail') or {}).get('exc', '')} "
+                      + (f"model={M['out'][pi]} inscope={int(M['inscope'][pi])}" if M else "") + mark)
 
     class _Chk:   # minimal stand-in: run the oracle only
         def count(self, *a, **k): pass
         def note(self, *a, **k): pass
         unmodelled = 0
         samples = []
-    fails, corr = evaluate(_Chk(), drv2, [T], wres, seeds, count=False)
+    fails, corr = evaluate(_Chk(), drv, [T], wres, seeds, count=False)
+    fails = [(w, c) for w, c in fails if c["config_index"] == ci]
     for what, c in fails[:10]:
-        print("oracle FAILS:", what)
+        known = [n for n, pred in __import__("harness.framework", fromlist=["x"]).FINDING_PREDICATES.items() if pred(c)]
+        print("oracle FAILS:", what, ("(recorded finding: " + ", ".join(known) + ")") if known else "")
         rc = 1
     for what, c in corr[:10]:
-        print("correspondence differs:", what)
+        if c["config_index"] == ci:
+            print("correspondence differs:", what)
     if not fails:
         print("oracle: holds")
     drv.close()
-    drv2.close()
     return rc
 
 
